@@ -186,6 +186,9 @@ def call_ext(it, chain: str, args: List[Any], kwargs: Dict[str, Any], env, node)
         return op("numba_" + tail.replace(".", "_"), *[to_term(a) for a in args])
     if chain in IDENTITY_FUNCS and args:
         return args[0]
+    if chain == "functools.partial" and args:
+        from .interp import PartialVal
+        return PartialVal(args[0], tuple(args[1:]), dict(kwargs))
     if chain == "itertools.product":
         # concrete operands only: the cartesian product in lexicographic order (last factor varies fastest)
         import itertools as _it
